@@ -90,6 +90,18 @@ class Model:
 _model = None
 
 
+def _cleanup():
+    global _model
+    if _model is not None:
+        _model.close()
+        _model = None
+
+
+import atexit
+
+atexit.register(_cleanup)
+
+
 def model():
     """Per-process singleton (worker processes create their own after fork)."""
     global _model
